@@ -83,80 +83,85 @@ def build_key_types(u, key):
                  opaque=["AccessControlRules", "Privilege", "Role", "Identity", "RoleAssignment"])
 
 
-W_ = "Tracked(w): Tracked<&mut W>"
+A_ = "Tracked(a): Tracked<&mut Actor>"
+H_ = "Tracked(h): Tracked<&mut Host>"
+H_RO = "Tracked(h): Tracked<&Host>"
+RD_ = "Tracked(rd): Tracked<&mut Redir>"
+DIR_ = "Ghost(dir): Ghost<PathId>"
 FS = "Tracked(fs): Tracked<&mut Fs>"
 FS_RO = "Tracked(fs): Tracked<&Fs>"
+DIR_ARG = "Ghost(pbid(self.key_dir))"
 
 # ---- contracts of the key-keeper actor wrapper methods (ASSUMED: one atomic operation on the abstract state each) -------
 def rule_id_contract(e):
     return """
         ensures
-            r matches Ok(p) ==> p.0 == (old(w).s.rule_id(Endpoint::%(e)s) != rule_id@) && p.1@ == old(w).s.rule_id(Endpoint::%(e)s)
-                && *final(w) == old(w).did(old(w).s.with_rule_id(Endpoint::%(e)s, rule_id@), Mut::RuleId(Endpoint::%(e)s, rule_id@)),
-            r is Err ==> *final(w) == old(w).failed(final(w).s, Mut::RuleId(Endpoint::%(e)s, rule_id@)),
+            r matches Ok(p) ==> p.0 == (old(a).s.rule_id(Endpoint::%(e)s) != rule_id@) && p.1@ == old(a).s.rule_id(Endpoint::%(e)s)
+                && *final(a) == old(a).did(old(a).s.with_rule_id(Endpoint::%(e)s, rule_id@), Mut::RuleId(Endpoint::%(e)s, rule_id@)),
+            r is Err ==> *final(a) == old(a).call_failed(final(a).s, Mut::RuleId(Endpoint::%(e)s, rule_id@)),
 """ % dict(e=e)
 
 
 def set_rules_contract(e):
     return """
         ensures
-            r is Ok ==> *final(w) == old(w).did(old(w).s.with_rules(Endpoint::%(e)s, computed_opt(rules)), Mut::Rules(Endpoint::%(e)s)),
-            r is Err ==> *final(w) == old(w).failed(final(w).s, Mut::Rules(Endpoint::%(e)s)),
+            r is Ok ==> *final(a) == old(a).did(old(a).s.with_rules(Endpoint::%(e)s, computed_opt(rules)), Mut::Rules(Endpoint::%(e)s)),
+            r is Err ==> *final(a) == old(a).call_failed(final(a).s, Mut::Rules(Endpoint::%(e)s)),
 """ % dict(e=e)
 
 
 def get_rules_contract(e):
     return """
         ensures
-            r matches Ok(v) ==> v == old(w).s.rules(Endpoint::%(e)s) && *final(w) == *old(w),
-            r is Err ==> *final(w) == (W { actor_failed: true, ..*old(w) }),
+            r matches Ok(v) ==> v == old(a).s.rules(Endpoint::%(e)s) && *final(a) == *old(a),
+            r is Err ==> *final(a) == old(a).read_failed(),
 """ % dict(e=e)
 
 
 KEY_GUID_CONTRACT = """
         ensures
-            r matches Ok(g) ==> guid_reply(g, old(w).s.key) && *final(w) == *old(w),
-            r is Err ==> *final(w) == (W { actor_failed: true, ..*old(w) }),
+            r matches Ok(g) ==> guid_reply(g, old(a).s.key) && *final(a) == *old(a),
+            r is Err ==> *final(a) == old(a).read_failed(),
 """
 UPDATE_KEY_CONTRACT = """
-        requires may_publish(*fs, *old(w), key),  // @C08.update_key.only_an_attested_or_locally_found_key_is_published
+        requires may_publish(*fs, *h, dir, key),  // @C08.update_key.only_an_attested_or_locally_found_key_is_published
         ensures
-            r is Ok ==> *final(w) == old(w).did(KkState { key: Some(key), ..old(w).s }, Mut::SetKey),
-            r is Err ==> *final(w) == old(w).failed(final(w).s, Mut::SetKey),
+            r is Ok ==> *final(a) == old(a).did(KkState { key: Some(key), ..old(a).s }, Mut::SetKey),
+            r is Err ==> *final(a) == old(a).call_failed(final(a).s, Mut::SetKey),
 """
 CLEAR_KEY_CONTRACT = """
         ensures
-            r is Ok ==> *final(w) == old(w).did(KkState { key: None, ..old(w).s }, Mut::ClearKey),
-            r is Err ==> *final(w) == old(w).failed(final(w).s, Mut::ClearKey),
+            r is Ok ==> *final(a) == old(a).did(KkState { key: None, ..old(a).s }, Mut::ClearKey),
+            r is Err ==> *final(a) == old(a).call_failed(final(a).s, Mut::ClearKey),
 """
 UPDATE_STATE_CONTRACT = """
         ensures
-            r matches Ok(updated) ==> updated == (old(w).s.state != state@)
-                && *final(w) == old(w).did(KkState { state: state@, ..old(w).s }, Mut::State(state@)),
-            r is Err ==> *final(w) == old(w).failed(final(w).s, Mut::State(state@)),
+            r matches Ok(updated) ==> updated == (old(a).s.state != state@)
+                && *final(a) == old(a).did(KkState { state: state@, ..old(a).s }, Mut::State(state@)),
+            r is Err ==> *final(a) == old(a).call_failed(final(a).s, Mut::State(state@)),
 """
 GET_STATUS_CONTRACT = """
         ensures
-            r matches Ok(st) ==> valid_status(st) && *final(w) == (W { status: Some(st), ..*old(w) }),
-            r is Err ==> *final(w) == (W { status: None, ..*old(w) }),
+            r matches Ok(st) ==> valid_status(st) && *final(h) == (Host { status: Some(st), ..*old(h) }),
+            r is Err ==> *final(h) == (Host { status: None, ..*old(h) }),
 """
 ACQUIRE_CONTRACT = """
-        requires may_acquire(*fs, *old(w)),  // @C08.acquire_key.only_when_no_readable_local_key_under_the_latched_guid
+        requires may_acquire(*fs, *old(h), dir),  // @C08.acquire_key.only_when_no_readable_local_key_under_the_latched_guid
         ensures
-            r matches Ok(k) ==> *final(w) == (W { acquired: Some(k), acquire_calls: old(w).acquire_calls + 1, ..*old(w) }),
-            r is Err ==> *final(w) == (W { acquire_calls: old(w).acquire_calls + 1, ..*old(w) }),
+            r matches Ok(k) ==> *final(h) == (Host { acquired: Some(k), acquire_calls: old(h).acquire_calls + 1, ..*old(h) }),
+            r is Err ==> *final(h) == (Host { acquire_calls: old(h).acquire_calls + 1, ..*old(h) }),
 """
 ATTEST_CONTRACT = """
-        requires may_attest(*fs, *old(w), *key),  // @C08.attest_key.only_after_stored_and_read_back_identically
+        requires may_attest(*fs, *old(h), dir, *key),  // @C08.attest_key.only_after_stored_and_read_back_identically
         ensures
-            r is Ok ==> *final(w) == (W { attested: Some(*key), attest_calls: old(w).attest_calls + 1, ..*old(w) }),
-            r is Err ==> *final(w) == (W { attest_calls: old(w).attest_calls + 1, ..*old(w) }),
+            r is Ok ==> *final(h) == (Host { attested: Some(*key), attest_calls: old(h).attest_calls + 1, ..*old(h) }),
+            r is Err ==> *final(h) == (Host { attest_calls: old(h).attest_calls + 1, ..*old(h) }),
 """
 
 
 def redirect_contract(e):
     return """
-        ensures *final(w) == (W { redirects: old(w).redirects.push((Endpoint::%s, redirect)), ..*old(w) }),
+        ensures *final(rd) == (Redir { updates: old(rd).updates.push((Endpoint::%s, redirect)) }),
 """ % e
 
 
@@ -172,34 +177,32 @@ def keystore_contracts():
 POLL_CONTRACT = """
         requires
             old(fs).safe(),
-            old(w).fresh(),
-            old(w).key_dir == pbid(self.key_dir),
+            fresh(*old(a), *old(h), *old(rd)),
         ensures
             final(fs).safe(),  // @C08.poll.crash_invariant_holds_on_every_exit
-            final(w).key_dir == old(w).key_dir,
             // ---- a poll whose status request fails or returns an invalid document changes nothing
-            final(w).status is None ==> final(w).s == old(w).s && final(w).muts.len() == 0,  // @C09.poll.failed_or_invalid_status_makes_no_mutating_call
-            final(w).status is None ==> final(w).redirects.len() == 0 && *final(fs) == *old(fs) && final(w).acquire_calls == 0 && final(w).attest_calls == 0 && !final(w).completed,  // @C09.poll.failed_or_invalid_status_changes_nothing_else
-            final(w).status matches Some(st) ==> valid_status(st),  // @C09.poll.only_a_valid_document_is_acted_on
+            final(h).status is None ==> final(a).s == old(a).s && final(a).muts == Seq::<Mut>::empty(),  // @C09.poll.failed_or_invalid_status_makes_no_mutating_call
+            final(h).status is None ==> final(rd).updates == Seq::<(Endpoint, bool)>::empty() && *final(fs) == *old(fs) && final(h).acquire_calls == 0 && final(h).attest_calls == 0 && !final(h).completed,  // @C09.poll.failed_or_invalid_status_changes_nothing_else
+            final(h).status is Some ==> valid_status(final(h).status->0),  // @C09.poll.only_a_valid_document_is_acted_on
             // ---- rule ids and rules follow the document (independently of what happens to the key afterwards)
-            final(w).status is Some && !final(w).actor_failed ==> rules_step(old(w).s, final(w).s, final(w).status->0, Endpoint::WireServer),  // @C09.poll.wireserver_rules_follow_the_document
-            final(w).status is Some && !final(w).actor_failed ==> rules_step(old(w).s, final(w).s, final(w).status->0, Endpoint::Imds),  // @C09.poll.imds_rules_follow_the_document
-            final(w).status is Some && !final(w).actor_failed ==> rules_step(old(w).s, final(w).s, final(w).status->0, Endpoint::HostGA),  // @C09.poll.hostga_rules_follow_the_document
+            final(h).status is Some && !final(a).failed ==> rules_step(old(a).s, final(a).s, final(h).status->0, Endpoint::WireServer),  // @C09.poll.wireserver_rules_follow_the_document
+            final(h).status is Some && !final(a).failed ==> rules_step(old(a).s, final(a).s, final(h).status->0, Endpoint::Imds),  // @C09.poll.imds_rules_follow_the_document
+            final(h).status is Some && !final(a).failed ==> rules_step(old(a).s, final(a).s, final(h).status->0, Endpoint::HostGA),  // @C09.poll.hostga_rules_follow_the_document
             // ---- a complete iteration
-            final(w).completed ==> final(w).status is Some,
-            final(w).completed && !final(w).actor_failed ==> final(w).s.state == sc_state(final(w).status->0),  // @C09.poll.state_is_the_documents_channel_state
-            final(w).completed && !final(w).actor_failed && old(w).s.disabled_means_no_key() ==> final(w).s.disabled_means_no_key(),  // @C09.poll.disabled_means_no_key
-            final(w).completed && !final(w).actor_failed && !channel_disabled(final(w).status->0) ==> final(w).s.key is Some,  // @C09.poll.enabled_channel_has_a_key
-            final(w).completed && !final(w).actor_failed && !channel_disabled(final(w).status->0) && names_agree(*old(fs), old(w).key_dir) ==>
-                (final(w).status->0.keyGuid matches Some(g) && final(w).s.key_guid() == Some(g@)) || (final(w).attested is Some && final(w).attested == final(w).s.key),  // @C09.poll.key_is_the_one_the_host_names_or_just_latched
-            final(w).completed && !final(w).actor_failed ==>
-                final(w).redirects == (if old(w).s.state != sc_state(final(w).status->0) { redirects_of(final(w).status->0) } else { Seq::<(Endpoint, bool)>::empty() }),  // @C09.poll.redirect_policy_updated_iff_state_changed_with_mode_not_disabled
+            final(h).completed ==> final(h).status is Some,
+            final(h).completed && !final(a).failed ==> final(a).s.state == sc_state(final(h).status->0),  // @C09.poll.state_is_the_documents_channel_state
+            final(h).completed && !final(a).failed && old(a).s.disabled_means_no_key() ==> final(a).s.disabled_means_no_key(),  // @C09.poll.disabled_means_no_key
+            final(h).completed && !final(a).failed && !channel_disabled(final(h).status->0) ==> final(a).s.key is Some,  // @C09.poll.enabled_channel_has_a_key
+            final(h).completed && !final(a).failed && !channel_disabled(final(h).status->0) && names_agree(*old(fs), pbid(self.key_dir)) ==>
+                (final(h).status->0.keyGuid matches Some(g) && final(a).s.key_guid() == Some(g@)) || (final(h).attested is Some && final(h).attested == final(a).s.key),  // @C09.poll.key_is_the_one_the_host_names_or_just_latched
+            final(h).completed && !final(a).failed ==>
+                final(rd).updates == (if old(a).s.state != sc_state(final(h).status->0) { redirects_of(final(h).status->0) } else { Seq::<(Endpoint, bool)>::empty() }),  // @C09.poll.redirect_policy_updated_iff_state_changed_with_mode_not_disabled
             // ---- an iteration cut short by a failed step
-            !final(w).completed ==> final(w).redirects.len() == 0,  // @C09.poll.no_redirect_update_on_early_exit
-            !final(w).completed && !final(w).actor_failed ==> final(w).s.key == old(w).s.key && final(w).s.state == old(w).s.state,  // @C08.poll.failed_step_leaves_key_and_state_unchanged
+            !final(h).completed ==> final(rd).updates == Seq::<(Endpoint, bool)>::empty(),  // @C09.poll.no_redirect_update_on_early_exit
+            !final(h).completed && !final(a).failed ==> final(a).s.key == old(a).s.key && final(a).s.state == old(a).s.state,  // @C08.poll.failed_step_leaves_key_and_state_unchanged
             // ---- host protocol
-            final(w).attest_calls <= 1 && final(w).acquire_calls <= 1,
-            final(w).attest_calls == 1 ==> final(w).acquire_calls == 1 && final(w).acquired is Some,  // @C08.poll.attest_only_follows_acquire
+            final(h).attest_calls <= 1 && final(h).acquire_calls <= 1,
+            final(h).attest_calls == 1 ==> final(h).acquire_calls == 1 && final(h).acquired is Some,  // @C08.poll.attest_only_follows_acquire
 """
 
 MODE_CONTRACT = """
@@ -335,20 +338,20 @@ def build(u):
             u.placeholder_ext(kkw, ["KeyKeeperSharedState"], "vx_ph_kkw")
             with u.impl_(kkw, "KeyKeeperSharedState"):
                 for (f, e) in (("update_wireserver_rule_id", "WireServer"), ("update_imds_rule_id", "Imds"), ("update_hostga_rule_id", "HostGA")):
-                    u.take_fn(kkw, "KeyKeeperSharedState::" + f, external_body=True, ghost=W_, contract=rule_id_contract(e))
+                    u.take_fn(kkw, "KeyKeeperSharedState::" + f, external_body=True, ghost=A_, contract=rule_id_contract(e))
                 for (f, e) in (("set_wireserver_rules", "WireServer"), ("set_imds_rules", "Imds"), ("set_hostga_rules", "HostGA")):
-                    u.take_fn(kkw, "KeyKeeperSharedState::" + f, external_body=True, ghost=W_, contract=set_rules_contract(e))
+                    u.take_fn(kkw, "KeyKeeperSharedState::" + f, external_body=True, ghost=A_, contract=set_rules_contract(e))
                 for (f, e) in (("get_wireserver_rules", "WireServer"), ("get_imds_rules", "Imds"), ("get_hostga_rules", "HostGA")):
-                    u.take_fn(kkw, "KeyKeeperSharedState::" + f, external_body=True, ghost=W_, contract=get_rules_contract(e))
-                u.take_fn(kkw, "KeyKeeperSharedState::get_current_key_guid", external_body=True, ghost=W_, contract=KEY_GUID_CONTRACT)
-                u.take_fn(kkw, "KeyKeeperSharedState::update_key", external_body=True, ghost=FS_RO + ", " + W_, contract=UPDATE_KEY_CONTRACT)
-                u.take_fn(kkw, "KeyKeeperSharedState::clear_key", external_body=True, ghost=W_, contract=CLEAR_KEY_CONTRACT)
-                u.take_fn(kkw, "KeyKeeperSharedState::update_current_secure_channel_state", external_body=True, ghost=W_, contract=UPDATE_STATE_CONTRACT)
+                    u.take_fn(kkw, "KeyKeeperSharedState::" + f, external_body=True, ghost=A_, contract=get_rules_contract(e))
+                u.take_fn(kkw, "KeyKeeperSharedState::get_current_key_guid", external_body=True, ghost=A_, contract=KEY_GUID_CONTRACT)
+                u.take_fn(kkw, "KeyKeeperSharedState::update_key", external_body=True, ghost=FS_RO + ", " + H_RO + ", " + A_ + ", " + DIR_, contract=UPDATE_KEY_CONTRACT)
+                u.take_fn(kkw, "KeyKeeperSharedState::clear_key", external_body=True, ghost=A_, contract=CLEAR_KEY_CONTRACT)
+                u.take_fn(kkw, "KeyKeeperSharedState::update_current_secure_channel_state", external_body=True, ghost=A_, contract=UPDATE_STATE_CONTRACT)
     with u.mod("provision", uses="use crate::shared_state::agent_status_wrapper::AgentStatusSharedState;\nuse crate::shared_state::key_keeper_wrapper::KeyKeeperSharedState;\nuse crate::shared_state::provision_wrapper::ProvisionSharedState;\nuse crate::shared_state::telemetry_wrapper::TelemetrySharedState;\nuse tokio_util::sync::CancellationToken;"):
         u.take_fn(pv, "key_latched", external_body=True, ret="")
     with u.mod("redirector", uses="use crate::shared_state::redirector_wrapper::RedirectorSharedState;"):
         for (f, e) in (("update_wire_server_redirect_policy", "WireServer"), ("update_imds_redirect_policy", "Imds"), ("update_hostga_redirect_policy", "HostGA")):
-            u.take_fn(rl, f, external_body=True, ghost=W_, contract=redirect_contract(e), ret="")
+            u.take_fn(rl, f, external_body=True, ghost=RD_, contract=redirect_contract(e), ret="")
     with u.mod("key_keeper", uses=KK_USES):
         for c in ("DISABLE_STATE", "MUST_SIG_WIRESERVER", "MUST_SIG_WIRESERVER_IMDS", "UNKNOWN_STATE"):
             u.take(kk, c, "const")
@@ -380,9 +383,9 @@ def build(u):
         ensures r == *self,  // @C08.Key_clone.clone_is_the_same_key
 """)
                 u._in_trait_impl = False
-            u.take_fn(key, "get_status", external_body=True, ghost=W_, contract=GET_STATUS_CONTRACT)
-            u.take_fn(key, "acquire_key", external_body=True, ghost=FS_RO + ", " + W_, contract=ACQUIRE_CONTRACT)
-            u.take_fn(key, "attest_key", external_body=True, ghost=FS_RO + ", " + W_, contract=ATTEST_CONTRACT)
+            u.take_fn(key, "get_status", external_body=True, ghost=H_, contract=GET_STATUS_CONTRACT)
+            u.take_fn(key, "acquire_key", external_body=True, ghost=FS_RO + ", " + H_ + ", " + DIR_, contract=ACQUIRE_CONTRACT)
+            u.take_fn(key, "attest_key", external_body=True, ghost=FS_RO + ", " + H_ + ", " + DIR_, contract=ATTEST_CONTRACT)
         u.take(kk, "KeyKeeper", "struct")
         with u.impl_(kk, "KeyKeeper"):
             u.take_fn(kk, "KeyKeeper::update_status_message", pre_body="broadcast use group_fmt;", ret="")
@@ -396,21 +399,22 @@ def build(u):
             a, _ = u.find_anchor(kk, lo_, hi_, "let status = match key::get_status(", None, "loop_poll")
             st = u.enclosing_stmt(it, a)
             lo, hi = st[0], hi_ - 1
-            gc = [("key::get_status", None, "Tracked(w)")]
+            gc = [("key::get_status", None, "Tracked(h)")]
             for f in ("update_wireserver_rule_id", "update_imds_rule_id", "update_hostga_rule_id", "set_wireserver_rules", "set_imds_rules", "set_hostga_rules",
-                      "get_current_key_guid", "update_current_secure_channel_state", "clear_key",
-                      "redirector::update_wire_server_redirect_policy", "redirector::update_imds_redirect_policy", "redirector::update_hostga_redirect_policy"):
-                gc.append((f, None, "Tracked(w)"))
+                      "get_current_key_guid", "update_current_secure_channel_state", "clear_key"):
+                gc.append((f, None, "Tracked(a)"))
+            for f in ("redirector::update_wire_server_redirect_policy", "redirector::update_imds_redirect_policy", "redirector::update_hostga_redirect_policy"):
+                gc.append((f, None, "Tracked(rd)"))
             for f in ("get_wireserver_rules", "get_imds_rules", "get_hostga_rules"):
-                gc.append((f, pick_call(kk, it, lo, hi, f, "key_keeper_shared_state"), "Tracked(w)"))
+                gc.append((f, pick_call(kk, it, lo, hi, f, "key_keeper_shared_state"), "Tracked(a)"))
             for f in ("Self::fetch_key", "Self::store_key", "Self::check_key"):
                 gc.append((f, None, "Tracked(fs)"))
-            gc.append(("update_key", "all", "Tracked(fs), Tracked(w)"))
-            gc.append(("key::acquire_key", None, "Tracked(fs), Tracked(w)"))
-            gc.append(("key::attest_key", None, "Tracked(fs), Tracked(w)"))
-            u.slice_fn(kk, "KeyKeeper::loop_poll", "vx_poll_once", lo, hi, "&self, " + FS + ", " + W_, ret_type="()", is_async=True,
+            gc.append(("update_key", "all", "Tracked(fs), Tracked(h), Tracked(a), " + DIR_ARG))
+            gc.append(("key::acquire_key", None, "Tracked(fs), Tracked(h), " + DIR_ARG))
+            gc.append(("key::attest_key", None, "Tracked(fs), Tracked(h), " + DIR_ARG))
+            u.slice_fn(kk, "KeyKeeper::loop_poll", "vx_poll_once", lo, hi, "&self, " + FS + ", " + A_ + ", " + H_ + ", " + RD_, ret_type="()", is_async=True,
                        replacements=[("continue;", "all", "return;")], ghost_calls=gc,
-                       pre_body="broadcast use axiom_str_ext, axiom_string_ext, axiom_to_string_string, group_fmt, group_fs, axiom_fmt_key_status;\nproof { lits_status(); lits_consts(); }\n",
-                       tail="proof { w.completed = true; }\n",
+                       pre_body="broadcast use axiom_to_string_string, group_fmt, axiom_fmt_key_status, axiom_string_obeys_eq_spec, axiom_string_eq_spec;\nproof { lits_status(); lits_consts(); }\n",
+                       tail="proof { h.completed = true; }\n",
                        contract=POLL_CONTRACT,
                        what="(loop body of loop_poll from the status request to the end; E5 drops: the sleep/notify select!, the provision time-up and event-thread start-up statements, get_notify and set_module_state(RUNNING) before the loop)")
